@@ -52,8 +52,9 @@ def setup(ex: Exec, ch: Choices, info: dict[str, Any]) -> None:
 
         def between(eng: Any) -> None:
             if n[0] == at:
-                wf = w.store.retrieve(ex.wf_id)
-                w.orchestrator.cancel(wf, "sim", "c06")
+                with w.as_client("client-cancel"):
+                    wf = w.store.retrieve(ex.wf_id)
+                    w.orchestrator.cancel(wf, "sim", "c06")
                 info["cancel_requested"] = True
             n[0] += 1
 
